@@ -30,7 +30,7 @@ fn p_or(x: Option<String>) -> String {
 // =====================================================================================
 // coefficient rings
 // =====================================================================================
-trait Coef: Ring
+trait Coef: Ring + FromStr
 where
     for<'a> &'a Self: RingOps<Self>,
 {
@@ -139,7 +139,7 @@ where
 }
 
 /// what PolyBase needs + hooks for the type-specific API
-trait PKey: Mono + Key {
+trait PKey: Mono + Key + FromStr {
     fn p_eval<R: Coef>(_p: &PolyBase<Self, R>, _pts: &[R]) -> Option<R>
     where
         for<'a> &'a R: RingOps<R>,
@@ -416,6 +416,17 @@ trait Val: Sized + Clone + PartialEq {
     fn f_neg(a: &Self) -> Vec<Option<Self>>;
     fn f_smul(a: &Self, c: &Self::C) -> Vec<Option<Self>>;
     fn f_lmul(a: &Self, b: &Self) -> Vec<Option<Self>>;
+    /// single-term constructors: From<(X, R)> (any coefficient, zero included) and From<X>
+    fn f_term(t: &(Self::X, Self::C)) -> Vec<Option<Self>>;
+    fn f_gen(x: &Self::X) -> Vec<Option<Self>>;
+    fn c_sub(a: &Self::C, b: &Self::C) -> Self::C;
+    /// PolyBase only: from_const, FromStr
+    fn f_const(_c: &Self::C) -> Vec<Option<Self>> {
+        vec![None]
+    }
+    fn f_pstr(_s: &str) -> Vec<Option<Self>> {
+        vec![None]
+    }
     // not applicable -> a single None -> "P" (the generator never emits these)
     fn f_mul(_a: &Self, _b: &Self) -> Vec<Option<Self>> {
         vec![None]
@@ -510,6 +521,18 @@ macro_rules! val_common {
         fn f_smul(a: &Self, c: &R) -> Vec<Option<Self>> {
             forms_s!(a, c)
         }
+        fn f_gen(x: &Self::X) -> Vec<Option<Self>> {
+            vec![
+                guarded(|| Self::from(x.clone())),
+                guarded(|| {
+                    let v: Self = x.clone().into();
+                    v
+                }),
+            ]
+        }
+        fn c_sub(a: &R, b: &R) -> R {
+            a - b
+        }
     };
 }
 
@@ -522,6 +545,26 @@ where
 
     fn v_coeff_alt(&self, x: &X) -> Option<R> {
         Some(self.coeff_for(x.deg()).clone())
+    }
+    fn f_term(t: &(X, R)) -> Vec<Option<Self>> {
+        vec![
+            guarded(|| Self::from(t.clone())),
+            guarded(|| {
+                let v: Self = t.clone().into();
+                v
+            }),
+            guarded(|| PolyBase::from(Lc::from(t.clone()))),
+        ]
+    }
+    fn f_const(c: &R) -> Vec<Option<Self>> {
+        vec![guarded(|| Self::from_const(c.clone()))]
+    }
+    fn f_pstr(s: &str) -> Vec<Option<Self>> {
+        // Err(()) is reported like a panic (the generator emits parsable strings only)
+        vec![
+            guarded(|| s.parse::<Self>().ok()).flatten(),
+            guarded(|| <Self as FromStr>::from_str(s).ok()).flatten(),
+        ]
     }
     fn f_mul(a: &Self, b: &Self) -> Vec<Option<Self>> {
         forms2!(a, b, *, *=)
@@ -588,6 +631,15 @@ where
 
     fn f_lmul(a: &Self, b: &Self) -> Vec<Option<Self>> {
         vec![guarded(|| a.combine(b, |x, y| Free(x.0 + y.0)))]
+    }
+    fn f_term(t: &(Free<i64>, R)) -> Vec<Option<Self>> {
+        vec![
+            guarded(|| Self::from(t.clone())),
+            guarded(|| {
+                let v: Self = t.clone().into();
+                v
+            }),
+        ]
     }
     fn f_mapg(a: &Self, k: i64) -> Vec<Option<Self>> {
         vec![
@@ -668,7 +720,8 @@ fn parse_terms<V: Val>(s: &str) -> Vec<(V::X, V::C)> {
 fn op_arity(name: &str) -> usize {
     match name {
         "asmono" | "inv" | "unit" | "nunit" => 2,
-        "set" | "neg" | "eq" | "coef" | "ev" | "ltf" => 3,
+        "set" | "neg" | "eq" | "coef" | "ev" | "ltf" | "term" | "gen" | "const" | "pstr" => 3,
+        "dterm" => 5,
         "add" | "sub" | "mul" | "lmul" | "smul" | "pow" | "powz" | "mapg" | "filt" | "appl" => 4,
         _ => panic!("bad op {}", name),
     }
@@ -685,7 +738,8 @@ fn run_prog<V: Val>(t: &[&str]) -> String {
         let a = &t[k..k + op_arity(name)];
         k += a.len();
         match name {
-            "set" | "add" | "sub" | "mul" | "lmul" | "neg" | "smul" | "pow" | "powz" | "mapg" | "filt" | "appl" => {
+            "set" | "add" | "sub" | "mul" | "lmul" | "neg" | "smul" | "pow" | "powz" | "mapg" | "filt" | "appl" | "term"
+            | "gen" | "const" | "pstr" | "dterm" => {
                 let d = ix(a[1]);
                 let forms: Vec<Option<V>> = match name {
                     "set" => match guarded(|| parse_terms::<V>(a[2])) {
@@ -701,6 +755,24 @@ fn run_prog<V: Val>(t: &[&str]) -> String {
                             }),
                         ],
                     },
+                    // the single-term constructors: the value is used as returned (no += / collect in between)
+                    "term" => match guarded(|| parse_terms::<V>(a[2])) {
+                        Some(ts) if ts.len() == 1 => V::f_term(&ts[0]),
+                        _ => vec![None],
+                    },
+                    "dterm" => match guarded(|| (V::X::kparse(a[2]), V::c_sub(&V::cparse(a[3]), &V::cparse(a[4])))) {
+                        Some(t) => V::f_term(&t),
+                        None => vec![None],
+                    },
+                    "gen" => match guarded(|| V::X::kparse(a[2])) {
+                        Some(x) => V::f_gen(&x),
+                        None => vec![None],
+                    },
+                    "const" => match guarded(|| V::cparse(a[2])) {
+                        Some(c) => V::f_const(&c),
+                        None => vec![None],
+                    },
+                    "pstr" => V::f_pstr(a[2]),
                     "add" => V::f_add(&regs[ix(a[2])], &regs[ix(a[3])]),
                     "sub" => V::f_sub(&regs[ix(a[2])], &regs[ix(a[3])]),
                     "mul" => V::f_mul(&regs[ix(a[2])], &regs[ix(a[3])]),
